@@ -119,6 +119,9 @@ func (c *c09) Cases(tier string, seed int64) []core.Case {
 		}
 		a386 = append(a386, core.MkCase("386:lengths-0..320", c09Params{Mode: "lengths", Path: p, Lens: small[:161], Seed: r.Int63()}))
 		a386 = append(a386, core.MkCase("386:lengths-65538", c09Params{Mode: "lengths", Path: p, Lens: []int{65538}, Seed: r.Int63()}))
+		// buffers of more than 2 MiB (what one slice of a large set is)
+		a386 = append(a386, core.MkCase("386:lengths-2MiB", c09Params{Mode: "lengths", Path: p, Lens: []int{2097150, 2097152, 2097154}, Seed: r.Int63()}))
+		a386 = append(a386, core.MkCase("386:lengths-5MiB", c09Params{Mode: "lengths", Path: p, Lens: []int{5242882}, Seed: r.Int63()}))
 		a386 = append(a386, core.MkCase("386:align", c09Params{Mode: "align", Path: p, Lens: []int{2, 30, 32, 34, 66, 130}, Seed: r.Int63()}))
 		a386 = append(a386, core.MkCase("386:concurrent", c09Params{Mode: "concurrent", Path: p, Lens: []int{2, 30, 34, 66, 318}, Seed: r.Int63()}))
 		for _, cc := range a386 {
@@ -296,8 +299,14 @@ func (c *c09) Run(cs core.Case) core.Result {
 		r.Sample(map[string]interface{}{"mode": "values", "path": p.Path, "constants": len(consts), "first_constants": consts[:min(8, len(consts))], "buffer": "all 65536 word values, permuted"})
 
 	case "lengths":
-		regIn, err1 := mon.NewGuardRegion(80)
-		regOut, err2 := mon.NewGuardRegion(80)
+		pages := 80
+		for _, l := range p.Lens {
+			if need := l/4096 + 8; need > pages {
+				pages = need
+			}
+		}
+		regIn, err1 := mon.NewGuardRegion(pages)
+		regOut, err2 := mon.NewGuardRegion(pages)
 		if err1 != nil || err2 != nil {
 			r.Inconclusive("mmap failed: %v %v", err1, err2)
 			return r.Done()
